@@ -1155,9 +1155,17 @@ def plan(ctx):
     return triples
 
 
+def _quiet():
+    import warnings
+    import numpy as np
+    warnings.filterwarnings("ignore")
+    np.seterr(all="ignore")
+
+
 def run(ctx, rep):
     import random
     import molli as ml
+    _quiet()
     rep.rule = ("(source class, copy route, mutation, mutated side) over random sources built through the public API; "
                 "a case is non-trivial when the route succeeds and the mutation applies; distinct by that quadruple "
                 "plus the source's size")
@@ -1226,5 +1234,6 @@ def run(ctx, rep):
 def replay(ctx, data):
     import random
     import molli as ml
+    _quiet()
     co = run_case(ml, random.Random(data["seed"]), data["kname"], tuple(data["route"]), data["side"], emit=False)
     return [vlib.Violation(s, t) for s, t in co.violations]
